@@ -499,6 +499,7 @@ type FuncContract struct {
 	Ghosts     []Binder // ghost parameters
 	Used       bool
 	ChanInvs   []chanInvDef
+	Defines    *ECall // `defines result == F(params)`: definitional name of the closure a constructor returns
 	NoVerify   bool
 }
 
@@ -549,7 +550,7 @@ func NewSpecSet() *SpecSet {
 
 var clauseKeywords = map[string]bool{"spec": true, "axiom": true, "ghost": true, "func": true, "requires": true, "ensures": true,
 	"modifies": true, "loop": true, "at": true, "maypanic": true, "inline": true, "trusted": true, "pure": true, "check": true,
-	"let": true, "chanmode": true, "chaninv": true, "thorough": true, "secret": true, "noverify": true, "ghostparam": true}
+	"let": true, "chanmode": true, "chaninv": true, "defines": true, "thorough": true, "secret": true, "noverify": true, "ghostparam": true}
 
 // ReadSpecFile reads //@ lines. pkgPrefix is prepended to `func` keys that are
 // not already qualified (contract files inside a package use short keys).
@@ -729,6 +730,24 @@ func (ss *SpecSet) ReadSpecFile(path, pkgPrefix string) error {
 					continue
 				}
 				cur.ChanInvs = append(cur.ChanInvs, chanInvDef{Name: f[0], Var: f[1], Label: ctmp.Label, Src: body, E: e})
+			case "defines":
+				// defines result == NAME(p1, p2, ...)
+				k := strings.Index(rest, "==")
+				if k < 0 {
+					fail(rc.line, "defines result == NAME(params)")
+					continue
+				}
+				e, err := ParseExpr(strings.TrimSpace(rest[k+2:]))
+				if err != nil {
+					fail(rc.line, "%v", err)
+					continue
+				}
+				call, ok := e.(ECall)
+				if !ok {
+					fail(rc.line, "defines result == NAME(params)")
+					continue
+				}
+				cur.Defines = &call
 			case "let":
 				k := strings.Index(rest, "=")
 				if k < 0 {
